@@ -8,6 +8,7 @@ from translators import t2_pointwise
 from core.ctx import REPO
 from . import _c03_expr as X
 from . import _c03_aux as AUX
+from . import _c03_aux2 as AUX2
 
 ID = "C03"
 LEAN_MODULES = ["NiftyVerif.Core.Proto", "NiftyVerif.Model.Expr", "NiftyVerif.Model.ExprIO", "NiftyVerif.Props.C03Ptw", "NiftyVerif.Props.C03Sinc", "NiftyVerif.Props.C03", "NiftyVerif.Props.C03Adj"]
@@ -28,7 +29,10 @@ RULE = ("(1) T2: every ptw_dict entry on a float grid over its valid range incl.
         "inputs; (3) auxiliary stream outside the model (Linearization.outer, MultiLinearEinsum/LinearEinsum incl. static "
         "fields, integrate) against NumPy references, and Gaussian energies with complex data on complex-valued models (complex "
         "scalings/diagonals/dense matrices, FFT, holomorphic functions): value, real-linear Jacobian, gradient, metric = J^H N J "
-        "for every mechanism (Linearization, get_metric_at, transformation), Hermitian, PSD; non-trivial = tree contains a non-linear node; "
+        "for every mechanism (Linearization, get_metric_at, transformation), Hermitian, PSD; complex inputs through real/imag/"
+        "conjugate/vdot on operators and Linearization objects (real-linear Jacobian, Re<.,.> adjoint); JaxOperator/"
+        "JaxLinearOperator vs NumPy twins; (4) class E: polynomial/piecewise-linear trees compared EXACTLY with the model over "
+        "Rat; (5) complexified holomorphic trees vs the model over complex numbers; non-trivial = tree contains a non-linear node; "
         "distinct by canonical (tree, input, flag)")
 TRUSTED_BASE = [
     "Lean 4.33 kernel + Mathlib real analysis; axioms propext/Classical.choice/Quot.sound only (audited every run)",
@@ -95,7 +99,11 @@ def run_ptw(ctx, names, meta):
                 continue
             reqs.append(dict(op="ptw", f=n, p=X.enc(p), v=X.enc(g)))
             info.append((n, p, g))
-    outs = ctx.model(DRIVER, reqs)
+    return reqs, info
+
+
+def finish_ptw(ctx, info, outs):
+    from nifty.cl.pointwise import ptw_dict
     for (n, p, g), m in zip(info, outs):
         case = dict(op="ptw", f=n, p=p)
         ctx.stat("ptw:" + n)
@@ -355,6 +363,8 @@ def embed_cols(J, dsub, dall):
 
 def oracle(case):
     """the property on the REAL code only"""
+    if case.get("aux") in ("creal", "jaxop"):
+        return AUX2.oracle(case)
     if "aux" in case:
         return AUX.oracle(case)
     if case.get("complex"):
@@ -519,7 +529,7 @@ def cclose(a, b, tol=TOL):
 
 
 def run_complex_model(ctx, cases):
-    """complex mode of the model (driver op linc) vs the real code on complexified holomorphic trees"""
+    """complex mode of the model (driver op linc) vs the real code on complexified holomorphic trees: real side + requests"""
     todo = []
     for c in cases:
         if not holomorphic(c["expr"]):
@@ -540,9 +550,10 @@ def run_complex_model(ctx, cases):
             xs[k] = [[X.f2b(v.real), X.f2b(v.imag)] for v in z[o:o + X.nent(n)]]
             o += X.nent(n)
         todo.append((cc, r, dict(op="linc", **{"in": [[k, n] for k, n in X.flat_dom(din)]}, x=xs, expr=X.ship_c(cc["expr"]))))
-    outs = []
-    for i in range(0, len(todo), 250):
-        outs += ctx.model(DRIVER, [t[2] for t in todo[i:i + 250]])
+    return todo
+
+
+def finish_complex_model(ctx, todo, outs):
     for (cc, r, _), m in zip(todo, outs):
         ctx.stat("complex-model")
         case = dict(cc, complex=True)
@@ -603,7 +614,7 @@ def shrink(case):
 # ------------------------------------------------------------------------------------------------- run
 def run(ctx):
     names, meta = names_meta()
-    run_ptw(ctx, names, meta)
+    preqs, pinfo = run_ptw(ctx, names, meta)
     for n in names:
         g, P = ptw_grid(n, ctx.rng)
         for p in P:
@@ -631,10 +642,11 @@ def run(ctx):
     # anchored mechanisms outside the Lean model (Linearization.outer, einsum.py, integrate): oracle on the real code
     aux += AUX.gen(ctx.rng, ctx.n(120, 800))
     aux += AUX.gen_cmetric(ctx.rng, ctx.n(70, 600))
+    aux += AUX2.gen_creal(ctx.rng, ctx.n(70, 600)) + AUX2.gen_jaxop(ctx.rng, ctx.n(10, 60))
     for c in aux:
         ctx.stat("aux:" + c["aux"])
         ctx.case(c, nontrivial=True)
-        res = AUX.oracle(c)
+        res = oracle(c)
         if res:
             ctx.counterexample(c, *res)
     ntree = ctx.n(220, 1500)
@@ -665,13 +677,16 @@ def run(ctx):
                                       x={k: [str(__import__("fractions").Fraction(float(v))) for v in c["x"][k]] for k in r["din"]},
                                       wm=c["wm"], expr=X.ship_q(c["expr"]))))
     ctx.stat("class-E-trees", len(exact))
+    ctodo = run_complex_model(ctx, cases)
     outs = []
-    B = 250
-    allreq = reqs + [e[2] for e in exact]
+    B = 1200
+    allreq = reqs + [e[2] for e in exact] + [t[2] for t in ctodo] + preqs
     for i in range(0, len(allreq), B):
         outs += ctx.model(DRIVER, allreq[i:i + B])
-    for (c2, r, _), m in zip(exact, outs[len(reqs):]):
+    finish_ptw(ctx, pinfo, outs[len(allreq) - len(preqs):])
+    for (c2, r, _), m in zip(exact, outs[len(reqs):len(reqs) + len(exact)]):
         compare_exact(ctx, {k: v for k, v in c2.items()}, r, m)
+    finish_complex_model(ctx, ctodo, outs[len(reqs) + len(exact):])
     outs = outs[:len(reqs)]
     for c, r, m in zip(cases, reals, outs):
         compare_tree(ctx, c, r, m)
@@ -681,7 +696,6 @@ def run(ctx):
             ctx.stat("complex-oracle")
         if res:
             ctx.counterexample(c, *res)
-    run_complex_model(ctx, cases)
 
 
 def search(ctx):
